@@ -171,6 +171,25 @@ def rejects_negative(ctx: Ctx) -> None:
                 ctx.violation(f"bs:negative-wrong-error:{name}", f"{name} raises {type(e).__name__} instead of ValueError for a negative {what}", {})
 
 
+def rejects_negative_after_failed_calls(ctx: Ctx) -> None:
+    """The rejection of negative arguments does not depend on what happened before: after calls of the library that ended in an
+    exception - an implied-volatility search that could not converge, a search given prices of the wrong size, a pricing call
+    with a negative argument - the same negative arguments are rejected again (rejects_negative once more)."""
+    from pfhedge.nn import BSEuropeanOption, BSLookbackOption
+    provoked = 0
+    for make in (lambda: BSEuropeanOption().implied_volatility(torch.tensor([-0.1, 0.05]), torch.tensor([0.5, 0.5]), torch.tensor([0.02, 0.09]), precision=1e-12),
+                 lambda: BSEuropeanOption().implied_volatility(torch.tensor([-0.1, 0.05]), torch.tensor([0.5, 0.5]), torch.tensor([0.02, 0.09, 0.1])),
+                 lambda: BSLookbackOption().implied_volatility(torch.tensor([-0.1]), torch.tensor([0.0]), torch.tensor([0.5]), torch.tensor([0.05]), precision=0.0),
+                 lambda: BSEuropeanOption().price(torch.tensor([0.1]), torch.tensor([-1.0]), torch.tensor([0.2]))):
+        try:
+            make()
+        except Exception:
+            provoked += 1
+    if provoked < 2:
+        raise MachineryError("rejects_negative_after_failed_calls: the provoking calls did not fail")
+    rejects_negative(ctx)
+
+
 def hedgers_finite(ctx: Ctx) -> None:
     from pfhedge.instruments import AmericanBinaryOption, BrownianStock, EuropeanBinaryOption, EuropeanOption, HestonStock, LookbackOption
     from pfhedge.nn import BlackScholes, Hedger, WhalleyWilmott
@@ -310,6 +329,7 @@ def check(ctx: Ctx) -> None:
     replay_cases(ctx, res.records)
     mixed_tensor(ctx)
     rejects_negative(ctx)
+    rejects_negative_after_failed_calls(ctx)
     modules_at_maturity(ctx)
     hedgers_finite(ctx)
     hedgers_finite_underflow(ctx)
